@@ -122,6 +122,17 @@ fn main() {
                 Some(t) => format!("schema {}", (reg[i.parse::<usize>().unwrap()].schema)(&t)),
                 None => "badval".into(),
             }),
+            ["fromhex", i, r, h] => {
+                let e = &reg[i.parse::<usize>().unwrap()];
+                let bytes = unhex(h);
+                let f_line = match e.full { Some(f) => format!("F {}", f(&bytes)), None => "F -".into() };
+                let e_line = match e.eps { Some(f) => format!("E {}", f(&bytes, r.parse().unwrap())), None => "E -".into() };
+                Some(format!("fromhex | {} | {}", f_line, e_line))
+            }
+            ["alloc", i, r, val] => Some(match (parse(val), reg[i.parse::<usize>().unwrap()].alloc) {
+                (Some(t), Some(f)) => f(&t, r.parse().unwrap()),
+                _ => "badval".into(),
+            }),
             ["wfails", i, spec, val] => Some(match parse(val) {
                 Some(t) => (sreg[i.parse::<usize>().unwrap()].wfails)(&t, spec),
                 None => "badval".into(),
